@@ -19,6 +19,7 @@ import core
 import fpgen
 import metrics_gen as G
 from metrics_gen import MEASURES, MCON
+from props import c06_cov
 
 IMPORTS = ['From Coq Require Import QArith.', 'From E3FP Require Import Base.Prelude Base.ZSet Model.Fprint Model.Metrics.']
 TOL = '(Qmake 1 1000000000)'
@@ -28,7 +29,9 @@ PRODUCT_DB_MAX_BITS = 2 ** 20     # X * Y.T and scipy.sparse.linalg.norm allocat
 
 # the one input class in which today's code is known (and proved: Properties/C06.v fp_tanimoto_explicit_zero_refuted) to
 # leave the definition: fprint_metrics.tanimoto/dice on a count/float fingerprint that holds a stored zero count
-FINDING_KEYS = {'explicit_zero': 'fp-tanimoto-dice-explicit-zero-count'}
+FINDING_KEYS = {'explicit_zero': 'fp-tanimoto-dice-explicit-zero-count',
+                # found by the coverage extension (findings/repro_cov_c06.py fp_pearson_numpy_int_bits_nan); NOT listed as known
+                'numpy_bits_pearson': c06_cov.NUMPY_BITS_KEY}
 
 
 FP_PAIR_FORMS = ('fm', 'fp,fp', 'fp,None')
@@ -170,8 +173,9 @@ def run(ctx):
     def bump(d, k, n=1):
         d[k] = d.get(k, 0) + n
 
-    def record(key, r, model, payload, prop=None, fkey=None, mask=None):
-        """r: observation of the implementation; model: Coq expression of type `result mres`."""
+    def record(key, r, model, payload, prop=None, fkey=None, mask=None, nan_key=None):
+        """r: observation of the implementation; model: Coq expression of type `result mres`.
+        nan_key: finding key of a NaN / inf outcome of exactly this call (c06_cov.numpy_bits_pearson_key), else None."""
         nonlocal found_input
         bump(dist['outcomes'], {'ok': 'value', 'err': 'exception'}.get(r[0], r[0]))
         payload = dict(payload)
@@ -179,7 +183,8 @@ def run(ctx):
         if r[0] not in ('ok', 'err'):
             # NaN / complex / wrong shape: distinct outcomes the model never produces
             found_input = True
-            ctx.fail('%s: implementation returned %s (%s)' % (key, r[0], str(r[1])[:120]), payload, finding_key=None)
+            ctx.fail('%s: implementation returned %s (%s)%s' % (key, r[0], str(r[1])[:120], ' [finding %s]' % nan_key if nan_key else ''),
+                     payload, finding_key=nan_key)
             return
         if r[0] == 'ok':
             flat = [r[1]] if not isinstance(r[1], list) else [x for row in r[1] for x in row]
@@ -351,6 +356,11 @@ def run(ctx):
         jitted = hasattr(AM._sparse_soergel, 'py_func') and not numba.config.DISABLE_JIT
         ctx.notes.append('in-process Soergel kernels are numba-compiled: %s' % jitted)
 
+    # ------------------------------------------------------------------ 5. coverage extension (props/c06_cov.py): other
+    # constructors / dtypes / layouts / calling styles, aliased operands, assume_binary, call sequences on reused operands
+    c06_cov.run_ext(ctx, {'record': record, 'dist': dist, 'bump': bump, 'fp_exprs': fp_exprs, 'arr_exprs': arr_exprs,
+                          'zero_count_key': zero_count_key, 'ncases': lambda: len(cases)})
+
     for k in cases[:2] + cases[len(cases) // 3:len(cases) // 3 + 2] + cases[-2:]:
         ctx.sample({'case': k[0], 'input_and_implementation_result': payloads[k[0]], 'check': k[1][:500]})
     nbad = core.compare_cases(ctx, cases, IMPORTS, 'C06 similarity measures', payloads, model_expr=mexpr,
@@ -365,7 +375,15 @@ def run(ctx):
         'with a constant non-zero operand (masked_pearson_entries[_by_form], masked_pearson_scalar_calls), Tanimoto/Dice on raw non-0/1 '
         'arrays (skipped_tanimoto_dice_on_nonbinary_arrays).  Float rounding is exercised by the non-dyadic streams (fingerprint class '
         'nondyadic_float and array class floatx: values 0.1, 1/3, 2.7, 0.3, 1.7, 1e-3, 12.75, 0.7, 1000.1; nondyadic_float_calls); all '
-        'other float inputs are dyadic with small numerators, where only the divisions and means round' % PROP_MAX_WIDTH)
+        'other float inputs are dyadic with small numerators, where only the divisions and means round.  Coverage extension '
+        '(props/c06_cov.py, counters under input_distribution.ext): fpx = fingerprint/database forms with all ordered kind pairs, lengths '
+        '1,2,3,5,7,10,100,1000, counts up to 65535, float values below one, named fingerprints, constructors from NumPy scalars / '
+        'unsorted repeated index lists / from_vector, databases filled in two batches / copied / with named rows, keyword call styles, the '
+        'same object as both operands; rejx = two databases of different length; arrx = raw arrays in int8..uint64/float32, Fortran / '
+        'strided / negatively strided / read-only dense layouts, 64-bit CSR index arrays, zero-row operands, keyword styles, X given twice, a '
+        'second operand sharing the first one\'s buffers, cosine(assume_binary=True|False) on 0/1 data; reuse = 12-24 calls in random (form, '
+        'measure, style) order on operands built ONCE (fingerprints, databases mostly with non-canonical storage, raw arrays), each result '
+        'compared with the model of the initial content' % PROP_MAX_WIDTH)
     ctx.coverage['input_distribution'] = dist
     ctx.assumptions += [
         'array_metrics.tanimoto/dice are called on raw arrays with 0/1 data only (any dtype, explicit zeros, duplicates that add up to 0/1): their docstring states "Data must be binary. This is not checked."; the theorems arr/sp_tanimoto_eq_def carry the hypothesis `binary`',
@@ -373,6 +391,8 @@ def run(ctx):
         'GENERATOR NARROWING: Pearson with a constant non-zero operand is mathematically 0/0 and the array/database forms decide it by round-off - observed on the current tree: CSR rows [1]*6 against each other give 1.0000000000000002 where the dense form gives 0.0, i.e. the two representations do NOT agree there; those matrix entries are masked in both comparison streams (corr and prop) and counted in input_distribution.masked_pearson_entries; the fingerprint-pair form is compared for exactly representable constants (they reach its zero-denominator branch and score 0) and masked for non-dyadic constants',
         'the known-finding key fp-tanimoto-dice-explicit-zero-count is attached only when the implementation returned exactly the value obtained by counting stored positions as set bits, in a fingerprint-pair form of tanimoto/dice with a stored zero count; any other disagreement on such an input is an unkeyed violation',
         'database forms of Pearson only for bits <= %d and of Tanimoto/Dice/cosine for bits <= 2^20 (the code densifies, resp. SciPy allocates O(bits): 32 GiB at 2^32); Soergel database forms and all fingerprint-pair forms are run up to 2^32' % PEARSON_DB_MAX_BITS,
+        'COVERAGE EXTENSION: cosine(assume_binary=True) is called on 0/1 data only (its documented contract) and compared with the model of the general sparse cosine path, which equals it on 0/1 data; dense Pearson of ONE row against an operand WITHOUT rows is skipped and counted (ext.skipped_dense_pearson_one_row_vs_zero_rows): np.corrcoef is 0-d there and the code raises IndexError - comparing with nothing is outside the quantifier (findings/repro_cov_c06.py note_dense_pearson_one_row_vs_zero_rows); an empty FingerprintDatabase (no length) is not generated',
+        'finding key %s (NOT listed as known; findings/repro_cov_c06.py fp_pearson_numpy_int_bits_nan) is attached only to the exact outcome: fingerprint-pair form of Pearson returned NaN/inf, an operand was constructed with a NumPy integer `bits`, and an operand has zero variance (empty or constant); counted in ext.numpy_bits_pearson_nan_outcomes' % c06_cov.NUMPY_BITS_KEY,
         'NumPy/SciPy kernels (dot, sparse product, cdist, corrcoef, sparse norm, sorted_indices, nan_to_num) and numba behave as modelled; exercised by the correspondence only',
         'tolerance 1e-9 (relative above 1); rooted values are compared through the monotone signed square, exactly; dyadic inputs exercise it only through / and mean, the non-dyadic streams through every sum and product',
     ]
@@ -392,7 +412,10 @@ def replay(ctx, path):
         return 1
     import e3fp.fingerprint.metrics as M
     fk = None
-    if form.startswith('array'):
+    if c.get('ext'):
+        r, model, prop, mask, fk = c06_cov.replay_ext(ctx, c, {'fp_exprs': fp_exprs, 'arr_exprs': arr_exprs, 'zero_count_key': zero_count_key})
+        print('replay: extended stream %s' % json.dumps(c['ext'])[:400])
+    elif form.startswith('array'):
         X = G.arr_from_json(c['X'])
         Y = None if c.get('Y') is None else G.arr_from_json(c['Y'])
         wm = Y is not None and Y['w'] != X['w']
@@ -435,8 +458,12 @@ def replay(ctx, path):
     print('  implementation now: %s' % json.dumps(G.obs_json(r))[:600])
     print('  implementation then: %s' % json.dumps(c.get('impl'))[:600])
     if r[0] not in ('ok', 'err'):
+        nk = c06_cov.numpy_bits_pearson_key_of_case(c, r) if c.get('ext') else None
+        if nk is not None and any(f.get('status') == 'known' and f.get('key') == nk for f in ctx.findings):
+            print('KNOWN-FINDING: property=C06 %s' % nk)
+            return 0
         print('VIOLATION property=C06 replay=%s' % path)
-        print('  implementation returned %s' % r[0])
+        print('  implementation returned %s%s' % (r[0], ' [finding %s]' % nk if nk else ''))
         return 1
     if mask and r[0] == 'ok' and not isinstance(r[1], list):
         print('replay: scalar Pearson with a constant operand is not compared (0/0)')
